@@ -14,16 +14,16 @@ type NestUnit struct {
 }
 
 var NestUnits = []NestUnit{
-	{"[", "]"},             // array as first element
-	{"[0,", "]"},           // array after comma
-	{`{"a":`, "}"},         // value of first member
-	{`{"a":0,"b":`, "}"},   // value of later member
-	{"[ ", " ]"},           // with whitespace
-	{`{ "k" : `, ` }`},     // with whitespace
-	{"[", ",0]"},           // followed by a sibling
-	{`{"a":`, `,"z":0}`},   // followed by a sibling member
-	{`{"\n":`, "}"},        // escaped key
-	{`["x",`, "]"},         // after a string element
+	{"[", "]"},           // array as first element
+	{"[0,", "]"},         // array after comma
+	{`{"a":`, "}"},       // value of first member
+	{`{"a":0,"b":`, "}"}, // value of later member
+	{"[ ", " ]"},         // with whitespace
+	{`{ "k" : `, ` }`},   // with whitespace
+	{"[", ",0]"},         // followed by a sibling
+	{`{"a":`, `,"z":0}`}, // followed by a sibling member
+	{`{"\n":`, "}"},      // escaped key
+	{`["x",`, "]"},       // after a string element
 }
 
 // NestPatterns are cyclic sequences of unit indices: pure arrays, pure objects, mixtures.
